@@ -39,6 +39,9 @@ CHECKS = {
  "C12": ("fault_enumeration", "E5+E1", "exhaustive enumeration of (element type x encoding x shape x bit pattern) payloads and of every payload / dims / data_type fault around them, through the real decoder at three observation points",
          "All 11 element types x both encodings x all shapes of rank 0..3 (thorough 0..4) with NaN payloads, extremes and, for 8/16-bit types, every value, must decode bit-exactly with the declared shape and type - observed at onnx.TensorFromProto, as an initializer returned by NewModelFromBytes+Run and as a Constant value. Every payload fault (raw length +-1 byte / +-1 element / empty / doubled, typed field +-1 element, no payload, both encodings, negative / zero / huge dims) and every other data_type code with each typed carrier populated must be refused with an error: never other values, another type or a panic.",
          "Trusted: the reference decoder rule (declared dims x declared type; ONNX carrier fields; little-endian raw) and gorgonia accessors for reading the result.", "DESIGN.md §3 C12"),
+ "C13": ("exploration", "E1", "bounded-exhaustive enumeration of declared signatures x supplied tensor sets through the real Model.Run vs the accept predicate",
+         "Every one-input signature of rank 1..3 (thorough 1..4) with each dimension fixed(2), fixed(3), symbolic or unspecified is run against a supplied tensor of EVERY shape of rank 0..4 (0..5); Run must fail (no outputs, inputs untouched) exactly when the rank or a fixed dimension differs and succeed otherwise; multi-input signatures with every subset of names missing, permuted tensors, extra names, and inputs shadowed by initializers; the introspection accessors must report exactly what Run enforces, axis by axis.",
+         "Trusted: the three-line accept predicate; the ONNX ValueInfoProto builder of the harness.", "DESIGN.md §3 C13"),
 }
 NA_REASON = "check not built yet in this session (see DESIGN.md §7 order of construction); decidable by bounded exhaustive exploration, to be claimed once its explorer exists"
 def main():
